@@ -168,6 +168,12 @@ func checkC11(tier, replay string) int {
 					for _, fl := range []uint32{0, 1, 2, 3, 4, 5} { // 4 = SPEC_ALLOW: a flag the kernel accepts and the library has no name for
 						for _, lm := range []bool{false, true} {
 							cfgs = append(cfgs, c11Config{Unpriv: unpriv, Script: nnpScript{NNP: nnp, Flags: fl, Choice: "stay", LoaderMain: lm}})
+							if fl < 2 {
+								// what is requested does not depend on what the policy forbids: policies that restrict nothing
+								for _, pk := range []string{"perm-emptydeny", "perm-allowgroup", "perm-log"} {
+									cfgs = append(cfgs, c11Config{Unpriv: unpriv, Script: nnpScript{NNP: nnp, Flags: fl, Choice: "stay", LoaderMain: lm, Policy: pk}})
+								}
+							}
 							if !lm {
 								// the bit is per thread: the thread-group leader already has it, the loader's thread does not. What
 								// /proc/self/status or any other process-wide view says is the leader's bit, not the loader's
@@ -387,7 +393,7 @@ func checkC11(tier, replay string) int {
 		}
 	}
 	ctx.Cov["filters_read_through_the_configuration_loader"] = cfgForms
-	ctx.Cov["rule"] = "states = {privileged, uid 65534} x NoNewPrivs x flags {0,tsync,log,tsync|log,4 (SPEC_ALLOW),5} x {pure Go child, cgo-linked child (flags 0 and tsync)} x loader on main / other goroutine (also with no_new_privs already set on the thread-group leader only, the loader being another thread) x thread placement at the single seam between prctl(2) and seccomp(2): stay, or forced migration (a helper goroutine takes over and wires itself to the loader's thread so that the runtime must resume the loader on another thread; with and without a pool of idle threads / with all idle threads wired), or - for NoNewPrivs loads with flags 0 and tsync, when strace is available - a second schedule point at the prctl itself (a tracer holds every prctl(2) in the kernel for 60 ms while the process has one P and a goroutine that never blocks, so that an unpinned goroutine resumes on another thread when the call returns); the manoeuvre is first shown to work on an unpinned control goroutine in the same process; each configuration runs the real LoadFilter in a fresh child; observed: result, tid and no_new_privs bit at the seam, per-thread NoNewPrivs/Seccomp before and after; plus every history of two (thorough: three) loads over two threads x {A,B} x NoNewPrivs x tsync in one process, privileged and unprivileged, judged step by step on /proc (the bit is per thread: a second load on another thread must set it again); plus a Filter written with the documented keys (no_new_privs x 4 flag words, YAML and JSON text) read through the ucfg loader: the fields LoadFilter looks at must hold what the text says"
+	ctx.Cov["rule"] = "states = {privileged, uid 65534} x NoNewPrivs x flags {0,tsync,log,tsync|log,4 (SPEC_ALLOW),5} x {pure Go child, cgo-linked child (flags 0 and tsync)} x policy {one denied name; for flags 0 and tsync also three policies that restrict nothing} x loader on main / other goroutine (also with no_new_privs already set on the thread-group leader only, the loader being another thread) x thread placement at the single seam between prctl(2) and seccomp(2): stay, or forced migration (a helper goroutine takes over and wires itself to the loader's thread so that the runtime must resume the loader on another thread; with and without a pool of idle threads / with all idle threads wired), or - for NoNewPrivs loads with flags 0 and tsync, when strace is available - a second schedule point at the prctl itself (a tracer holds every prctl(2) in the kernel for 60 ms while the process has one P and a goroutine that never blocks, so that an unpinned goroutine resumes on another thread when the call returns); the manoeuvre is first shown to work on an unpinned control goroutine in the same process; each configuration runs the real LoadFilter in a fresh child; observed: result, tid and no_new_privs bit at the seam, per-thread NoNewPrivs/Seccomp before and after; plus every history of two (thorough: three) loads over two threads x {A,B} x NoNewPrivs x tsync in one process, privileged and unprivileged, judged step by step on /proc (the bit is per thread: a second load on another thread must set it again); plus a Filter written with the documented keys (no_new_privs x 4 flag words, YAML and JSON text) read through the ucfg loader: the fields LoadFilter looks at must hold what the text says"
 	ctx.Assumptions = []string{"the only scheduling fact that matters between prctl and seccomp is which OS thread executes seccomp(2); instruction-level preemption inside the runtime is not enumerated", "if the loader is wired to its thread, migration is impossible and the property holds by construction (counted separately)"}
 	if replay != "" {
 		return finishReplay(ctx)
